@@ -1,0 +1,22 @@
+//go:build verif
+
+package action
+
+import (
+	"k8s.io/apimachinery/pkg/api/meta"
+	"k8s.io/apimachinery/pkg/runtime"
+	"k8s.io/apimachinery/pkg/runtime/schema"
+	"k8s.io/cli-runtime/pkg/resource"
+)
+
+// VerifSetMetadata applies setMetadataVisitor (validate.go) to one object in place.
+func VerifSetMetadata(obj runtime.Object, kind, name, namespace, releaseName, releaseNamespace string, force bool) error {
+	info := &resource.Info{Object: obj, Name: name, Namespace: namespace,
+		Mapping: &meta.RESTMapping{GroupVersionKind: schema.GroupVersionKind{Version: "v1", Kind: kind}}}
+	return setMetadataVisitor(releaseName, releaseNamespace, force)(info, nil)
+}
+
+// VerifCheckOwnership runs checkOwnership (validate.go) on one object.
+func VerifCheckOwnership(obj runtime.Object, releaseName, releaseNamespace string) error {
+	return checkOwnership(obj, releaseName, releaseNamespace)
+}
